@@ -102,7 +102,11 @@ func (e *env) newWorld() *world {
 	return w
 }
 
-func (w *world) Enabled(int) bool { return w.cf != nil && atomic.LoadInt32(&memAbort) == 0 }
+func (w *world) Enabled(int) bool {
+	// past the deadline nothing is enabled: the BFS only looks at the clock between frontier
+	// entries, which is too coarse when a broken implementation makes every step slow
+	return w.cf != nil && atomic.LoadInt32(&memAbort) == 0 && (w.quiet || time.Now().Before(w.e.deadline))
+}
 
 func (w *world) Close() {
 	if w.cf != nil {
@@ -136,7 +140,7 @@ func (w *world) Apply(oi int) []mc.Violation {
 			}
 			v.Key = strings.Join(names, " ; ")
 			v.Msg = fmt.Sprintf("%s [shortest sequence showing it: %s]", msg, v.Key)
-			v.Replay = map[string]any{"path": names, "found_on_path": append([]string(nil), w.names...)}
+			v.Replay = map[string]any{"path": names}
 		}
 		w.e.tally.add(*v)
 	}
@@ -724,7 +728,8 @@ func Run(tier string) int {
 	defer stopGuard()
 	e := newEnv(rep, smallLists(tier), crashDepth)
 	defer e.cleanup()
-	st := mc.BFS(e.spec(), depth, maxStates, start.Add(budget), rep)
+	e.deadline = start.Add(budget)
+	st := mc.BFS(e.spec(), depth, maxStates, e.deadline, rep)
 	st.FillCoverage(rep.Coverage, "BFS over store(id,list)/invalidate(mask)/reset/reopen on a real cache file and a 3-stream index; "+
 		"state = reference map + model of the record sequence in the file + in-memory bookkeeping of the cache object read by reflection "+
 		"(integers by value, offsets by rank); every observer compared after every operation; for every distinct file up to crash_depth "+
@@ -739,7 +744,8 @@ func Run(tier string) int {
 		// run-time compaction needs 16 MiB of invalidated records: separate, smaller alphabet
 		be := newEnv(rep, bigLists(), 2)
 		be.stats, be.tally = stats, e.tally
-		bst := mc.BFS(be.spec(), 4, 0, time.Now().Add(4*time.Minute), rep)
+		be.deadline = time.Now().Add(4 * time.Minute)
+		bst := mc.BFS(be.spec(), 4, 0, be.deadline, rep)
 		be.cleanup()
 		bigSt = &bst
 		rep.Coverage["compaction_states"] = bst.States
@@ -764,6 +770,11 @@ func Run(tier string) int {
 		rep.Coverage["exhaustive"] = false
 		caps, _ := rep.Coverage["caps_hit"].([]string)
 		rep.Coverage["caps_hit"] = append(caps, "memory guard")
+	}
+	if atomic.LoadInt32(&stats.capped) != 0 {
+		rep.Coverage["exhaustive"] = false
+		caps, _ := rep.Coverage["caps_hit"].([]string)
+		rep.Coverage["caps_hit"] = append(caps, "deadline inside the truncation checks of a file")
 	}
 	stats.fill(rep.Coverage)
 	e.tally.fill(rep.Coverage)
